@@ -11,7 +11,8 @@ from harness.decoders import iden3
 RULE = ("(a) generated IR programs traced on the recorder, then their interface-level call sequence replayed on the real "
         "pysnark.snarkjsbackend; (b) directly generated backend-level traces: linear combinations with zero coefficients, "
         "empty combinations, repeated variables, scalars around and above p, witness values negative, >= p and wider than "
-        "256 bits; then prove() in a scratch directory. Oracle: independent decoders of the iden3 formats accept both "
+        "256 bits; then prove() in a scratch directory (in a third of the cases prove() is also called part-way through the trace: a "
+        "history with two proving steps, each judged against the trace so far). Oracle: independent decoders of the iden3 formats accept both "
         "files (magic, version, section table, every declared size/count equal to the bytes consumed, no trailing bytes, "
         "every field element < p); header counts = 1 + #public + #private wires and #public; decoded witness = [1] + "
         "public values (creation order) + private values (creation order), congruent to the recorder's; decoded "
@@ -29,11 +30,24 @@ def lcmap(terms, p):
     return {w: c for w, c in m.items() if c}
 
 
-def judge(trace, mod, tmp):
-    """returns message or None"""
-    ref = backends.reference(trace, P)
+def judge(trace, mod, tmp, split=None):
+    """returns message or None. With `split`, prove() is also called after the first `split` calls of the
+    trace (a history with two proving steps): both file pairs must describe the trace up to that point."""
     backends.reset_state("snarkjs", mod)
+    if split:
+        vars_ = backends.apply_trace(trace[:split], mod)
+        msg = check_files(trace[:split], mod, tmp)
+        if msg:
+            return "after the first prove() (of two): " + msg
+        backends.apply_trace(trace[split:], mod, vars_)
+        msg = check_files(trace, mod, tmp)
+        return ("after the second prove(): " + msg) if msg else None
     backends.apply_trace(trace, mod)
+    return check_files(trace, mod, tmp)
+
+
+def check_files(trace, mod, tmp):
+    ref = backends.reference(trace, P)
     for f in ("witness.wtns", "circuit.r1cs"):
         if os.path.exists(os.path.join(tmp, f)):
             os.remove(os.path.join(tmp, f))
@@ -118,11 +132,12 @@ def shard(seed, n_examples, programs):
             else:
                 trace = draw(backends.trace_strategy(st, P))
                 lab = ("source:direct",)
-            msg = quiet(judge, trace, e.mod, e.tmp)
+            split = draw(st.integers(1, len(trace))) if len(trace) > 1 and draw(st.integers(0, 2)) == 0 else None
+            msg = quiet(judge, trace, e.mod, e.tmp, split)
             nt = nontrivial(trace)
-            stats.case(trace if nt else None, nt, lab)
+            stats.case(trace if nt else None, nt, lab + (("two-proves",) if split else ()))
             if msg:
-                raise core.Violation({"trace": trace}, msg, "file")
+                raise core.Violation({"trace": trace, "split": split}, msg, "file")
         v = core.drive(test, seed, n_examples)
         if v is not None:
             stats.violations.append({"case": v.case, "msg": v.msg, "key": v.key})
@@ -134,7 +149,7 @@ def shard(seed, n_examples, programs):
 def replay(case):
     e = Env()
     try:
-        return quiet(judge, case["trace"], e.mod, e.tmp)
+        return quiet(judge, case["trace"], e.mod, e.tmp, case.get("split"))
     finally:
         e.close()
 
